@@ -72,15 +72,27 @@ Theorem civil_epoch : civil_from_days_m 0 = Some epoch.
 Proof. vm_compute. reflexivity. Qed.
 
 (** * weekday *)
-Theorem weekday_from_days_spec z : -2147483648 <= z <= 2147483643 ->
+Lemma s64_some x : -9223372036854775808 <= x <= 9223372036854775807 -> s64 x = Some x.
+Proof.
+  intros H. unfold s64, chk, in_ty, imin, imax, i64, smin, smax; cbn [sgn bits].
+  change (2 ^ (64 - 1)) with 9223372036854775808.
+  destruct (_ && _) eqn:E; [reflexivity|lia].
+Qed.
+
+(* for EVERY int32 day count (the code widens to long long before adding 4) *)
+Theorem weekday_from_days_all z : -2147483648 <= z <= 2147483647 ->
   weekday_from_days_m z = Some (weekday_of z).
 Proof.
   intros Hz. unfold weekday_from_days_m, weekday_of.
   destruct (z >=? -4) eqn:E.
-  - rewrite s32_some by lia. cbn [obind]. rewrite wrapu8_small by lia. f_equal. lia.
-  - rewrite s32_some by lia. cbn [obind]. rewrite s32_some by lia. cbn [obind].
+  - rewrite s64_some by lia. cbn [obind]. rewrite wrapu8_small by lia. f_equal. lia.
+  - rewrite s64_some by lia. cbn [obind]. rewrite s64_some by lia. cbn [obind].
     rewrite wrapu8_small by lia. f_equal. lia.
 Qed.
+(* the statement of the first version (the int arithmetic of that time needed tp <= INT32_MAX - 4) *)
+Theorem weekday_from_days_spec z : -2147483648 <= z <= 2147483643 ->
+  weekday_from_days_m z = Some (weekday_of z).
+Proof. intros Hz. apply weekday_from_days_all. lia. Qed.
 
 Lemma weekday_of_succ z : weekday_of (z + 1) = (weekday_of z + 1) mod 7.
 Proof. unfold weekday_of. lia. Qed.
